@@ -1193,8 +1193,8 @@ impl Server {
         };
         
         // Check watched keys against storage (no connection lock held)
-        for (key, baseline_counter) in &watched_keys {
-            match self.storage.was_modified_since(db_index, key, *baseline_counter) {
+        for ((db, key), baseline_counter) in &watched_keys {
+            match self.storage.was_modified_since(*db, key, *baseline_counter) {
                 Ok(true) => {
                     // Clear transaction state
                     self.connections.with_connection(conn_id, |conn| {
